@@ -16,6 +16,8 @@ type regCase struct {
 	// SourceB64 replaces Source when the text is not valid UTF-8 (JSON replay
 	// files cannot hold such bytes).
 	SourceB64 string `json:"source_b64,omitempty"`
+	// Banned: directive kinds banned for the run (C18).
+	Banned []string `json:"banned,omitempty"`
 }
 
 func regCheck(c regCase, info *vlib.Info) *vlib.Failure {
@@ -26,7 +28,9 @@ func regCheck(c regCase, info *vlib.Info) *vlib.Failure {
 	}
 	info.NonTrivial = true
 	info.Class("regression-text")
-	res := vlib.Run(vlib.Single(c.Source))
+	proj := vlib.Single(c.Source)
+	proj.Banned = c.Banned
+	res := vlib.Run(proj)
 	if res.Panic != "" {
 		return vlib.Failf("regression: "+c.Name, "%s panics: %s\n--- source:\n%s", c.Name, res.Panic, c.Source)
 	}
@@ -108,4 +112,10 @@ var c07Pairs = []pairCase{
 var c09Regression = []regCase{
 	{Name: "F14-jsonrpc-id-collision", Source: "JSIGHT 0.3\nURL /c\n  Protocol json-rpc-2.0\n  Method \"a /b\"\n    Params\n    {}\nURL \"/b /c\"\n  Protocol json-rpc-2.0\n  Method a\n    Params\n    {}\n", Expect: "reject"},
 	{Name: "F33-invalid-utf8-paths-collide", Source: "JSIGHT 0.3\nGET \"/a\xff\"\n  200 any\nGET \"/a\xfe\"\n  200 any\n", Expect: "reject"},
+}
+
+var c18Regression = []regCase{
+	{Name: "F21-banned-macro", Source: "JSIGHT 0.3\nMACRO @m\n(\n  200 any\n)\nGET /a\n  PASTE @m\n", Expect: "reject", Banned: []string{"MACRO"}},
+	{Name: "F21-banned-paste", Source: "JSIGHT 0.3\nMACRO @m\n(\n  200 any\n)\nGET /a\n  PASTE @m\n", Expect: "reject", Banned: []string{"PASTE"}},
+	{Name: "F21-banned-kind-inside-pasted-macro", Source: "JSIGHT 0.3\nMACRO @m\n(\n  Query\n  {\"a\": 1}\n)\nGET /a\n  PASTE @m\n", Expect: "reject", Banned: []string{"Query"}},
 }
